@@ -370,4 +370,178 @@ Qed.
 
 End WithClose.
 
+(** ** make_xarray_grid *)
+
+Lemma check_names_Some count nm l :
+  check_names count nm = Some l ->
+  length l = count /\ l = names_list nm /\ names_valid count nm = true.
+Proof.
+  destruct nm as [|s|l']; cbn; [discriminate| |].
+  - destruct (count =? 1) eqn:C; [|discriminate]. intros [= <-].
+    apply Nat.eqb_eq in C. subst. repeat split.
+  - destruct (count =? length l') eqn:C; [|discriminate]. intros [= <-].
+    apply Nat.eqb_eq in C. subst. repeat split.
+Qed.
+
+Lemma check_names_None count nm : check_names count nm = None -> names_valid count nm = false.
+Proof.
+  destruct nm as [|s|l']; cbn; [reflexivity| |].
+  - destruct (count =? 1); [discriminate|reflexivity].
+  - destruct (count =? length l'); [discriminate|reflexivity].
+Qed.
+
+Section Make.
+Variable close : V -> V -> bool.
+
+Definition extra_names_of (extras : list arr2) (xnames : names) : list string :=
+  match extras with [] => [] | _ => names_list xnames end.
+Definition data_names_of (data : dataarg V) (dnames : names) : list string :=
+  match data with DNone => [] | _ => names_list dnames end.
+
+(** the grid that make_xarray_grid builds, explicitly *)
+Lemma make_structure ce cn extras data dnames dims xnames ds :
+  make_xarray_grid close ce cn extras data dnames dims xnames = Some ds ->
+  exists e n,
+    horizontal close ce cn extras = Some (e, n) /\
+    fst dims <> snd dims /\
+    length (extra_names_of extras xnames) = length extras /\
+    length (data_names_of data dnames) = length (data_list data) /\
+    forallb (rect (length n) (length e)) (extras ++ data_list data) = true /\
+    (match extras with [] => true | _ => names_valid (length extras) xnames end) = true /\
+    (match data with DNone => true | _ => names_valid (length (data_list data)) dnames end) = true /\
+    ds = mk_ds ((snd dims, Idx e) :: (fst dims, Idx n)
+                  :: map (fun p => (fst p, Aux (mk_var dims (snd p))))
+                       (combine (extra_names_of extras xnames) extras))
+               (map (fun p => (fst p, mk_var dims (snd p)))
+                  (combine (data_names_of data dnames) (data_list data))).
+Proof.
+  unfold make_xarray_grid. intros H.
+  destruct (horizontal close ce cn extras) as [[e n]|]; [|discriminate].
+  exists e, n. split; [reflexivity|].
+  destruct (match extras with [] => Some [] | _ :: _ => check_names (length extras) xnames end)
+    as [xn|] eqn:EX; [|discriminate].
+  destruct (match data with DNone => Some [] | _ => check_names (length (data_list data)) dnames end)
+    as [dn|] eqn:ED; [|discriminate].
+  assert (HX: length xn = length extras /\ xn = extra_names_of extras xnames /\
+              (match extras with [] => true | _ => names_valid (length extras) xnames end) = true).
+  { unfold extra_names_of. destruct extras as [|x0 xs].
+    - injection EX as <-. repeat split.
+    - apply check_names_Some in EX. exact EX. }
+  assert (HD: length dn = length (data_list data) /\ dn = data_names_of data dnames /\
+              (match data with DNone => true | _ => names_valid (length (data_list data)) dnames end) = true).
+  { unfold data_names_of. destruct data as [|a|l].
+    - injection ED as <-. repeat split.
+    - apply check_names_Some in ED. exact ED.
+    - apply check_names_Some in ED. exact ED. }
+  destruct HX as (LX & -> & VX). destruct HD as (LD & -> & VD).
+  unfold xr_dataset in H.
+  destruct (String.eqb_spec (fst dims) (snd dims)) as [|Hd]; [discriminate|].
+  destruct (forallb _ _) eqn:F in H; [|discriminate].
+  injection H as <-.
+  rewrite forallb_app in F. rewrite !forallb_combine_snd in F by assumption.
+  rewrite <- forallb_app in F.
+  repeat (split; [assumption|]). reflexivity.
+Qed.
+
+(** names and dimensions of the result are the requested ones, in order *)
+Theorem make_grid_names ce cn extras data dnames dims xnames ds :
+  make_xarray_grid close ce cn extras data dnames dims xnames = Some ds ->
+  map fst (ds_vars ds) = data_names_of data dnames /\
+  map fst (ds_coords ds) = snd dims :: fst dims :: extra_names_of extras xnames /\
+  Forall (fun p => v_dims (snd p) = dims) (ds_vars ds) /\
+  length (ds_vars ds) = length (data_list data) /\
+  length (ds_coords ds) = 2 + length extras.
+Proof.
+  intros H. destruct (make_structure _ _ _ _ _ _ _ _ H) as (e & n & _ & _ & LX & LD & _ & _ & _ & ->).
+  cbn [ds_vars ds_coords map fst]. rewrite !map_map. cbn [fst snd].
+  rewrite !map_fst_combine by assumption.
+  repeat split.
+  - apply Forall_forall. intros p Hp. apply in_map_iff in Hp as (q & <- & _). reflexivity.
+  - rewrite map_length, combine_length. lia.
+  - cbn [length]. rewrite map_length, combine_length. lia.
+Qed.
+
+
+Lemma horizontal_cells ce cn extras e n i j (a : arr2) (v : V) :
+  horizontal close ce cn extras = Some (e, n) ->
+  rect (length n) (length e) a = true -> cell a i j = Some v ->
+  exists y x, nth_error n i = Some y /\ nth_error e j = Some x /\ source_cell close ce cn i j y x.
+Proof.
+  intros H Ra Hv.
+  apply rect_spec in Ra as [La Ra]. rewrite Forall_forall in Ra.
+  unfold cell in Hv. destruct (nth_error a i) as [r|] eqn:Er; [|discriminate].
+  assert (Hi: i < length n). { rewrite <- La. apply nth_error_Some. congruence. }
+  assert (Hj: j < length e).
+  { rewrite <- (Ra r (nth_error_In _ _ Er)). apply nth_error_Some. congruence. }
+  destruct ce as [e1|E], cn as [n1|N]; cbn in H; try discriminate.
+  - injection H as -> ->.
+    destruct (nth_error n i) as [y|] eqn:Ey; [|apply nth_error_None in Ey; lia].
+    destruct (nth_error e j) as [x|] eqn:Ex; [|apply nth_error_None in Ex; lia].
+    exists y, x. cbn. repeat split; assumption.
+  - destruct (meshgrid_to_1d_Some _ _ _ _ _ _ H) as (Hnn & Hne & RE & RN & _ & _ & _ & _ & _ & Le & Ln).
+    assert (exists x0, cell E i j = Some x0) as [x0 Hx0].
+    { apply rect_spec in RE as [LE RE]. rewrite Forall_forall in RE. unfold cell.
+      destruct (nth_error E i) as [re|] eqn:Ere; [|apply nth_error_None in Ere; lia].
+      destruct (nth_error re j) as [x0|] eqn:Ex0; [exists x0; reflexivity|].
+      apply nth_error_None in Ex0. rewrite (RE re (nth_error_In _ _ Ere)) in Ex0. lia. }
+    assert (exists y0, cell N i j = Some y0) as [y0 Hy0].
+    { apply rect_spec in RN as [LN RN]. rewrite Forall_forall in RN. unfold cell.
+      destruct (nth_error N i) as [rn|] eqn:Ern; [|apply nth_error_None in Ern; lia].
+      destruct (nth_error rn j) as [y0|] eqn:Ey0; [exists y0; reflexivity|].
+      apply nth_error_None in Ey0. rewrite (RN rn (nth_error_In _ _ Ern)) in Ey0. lia. }
+    destruct (meshgrid_to_1d_cells _ _ _ _ _ _ _ _ _ _ H Hx0 Hy0) as (x & y & Hx & Hy & C1 & C2 & X1 & X2).
+    exists y, x. cbn. split; [exact Hy|]. split; [exact Hx|].
+    exists y0, x0. repeat split; assumption.
+Qed.
+
+(** placement of the data: cell (i, j) of the k-th data array is the value of
+    the variable with the k-th name at index (i, j), and the grid's
+    coordinates there are those of the source cell *)
+Theorem make_grid_placement ce cn extras data dnames dims xnames ds k nm (a : arr2) i j (v : V) :
+  make_xarray_grid close ce cn extras data dnames dims xnames = Some ds ->
+  NoDup (data_names_of data dnames) ->
+  nth_error (data_names_of data dnames) k = Some nm ->
+  nth_error (data_list data) k = Some a ->
+  cell a i j = Some v ->
+  exists y x, sel ds nm i j = Some (y, x, v) /\ source_cell close ce cn i j y x.
+Proof.
+  intros H Hnd Hnm Ha Hv.
+  destruct (make_structure _ _ _ _ _ _ _ _ H) as (e & n & Hh & Hd & LX & LD & F & _ & _ & ->).
+  assert (Ra: rect (length n) (length e) a = true).
+  { rewrite forallb_forall in F. apply F. apply in_or_app. right. eapply nth_error_In. exact Ha. }
+  destruct (horizontal_cells _ _ _ _ _ _ _ _ _ Hh Ra Hv) as (y & x & Hy & Hx & Hsrc).
+  exists y, x. split; [|exact Hsrc].
+  unfold sel. cbn [ds_vars ds_coords].
+  rewrite (map_combine_snd (mk_var dims)).
+  rewrite (assoc_combine (mk_var dims) _ _ k _ _ Hnd Hnm Ha). cbn [v_dims v_rows].
+  rewrite assoc_skip by exact Hd. rewrite assoc_hit, assoc_hit.
+  rewrite Hy, Hx, Hv. reflexivity.
+Qed.
+
+(** the same for the extra coordinates *)
+Theorem make_grid_placement_extra ce cn extras data dnames dims xnames ds k nm (a : arr2) i j (v : V) :
+  make_xarray_grid close ce cn extras data dnames dims xnames = Some ds ->
+  NoDup (extra_names_of extras xnames) ->
+  nm <> fst dims -> nm <> snd dims ->
+  nth_error (extra_names_of extras xnames) k = Some nm ->
+  nth_error extras k = Some a ->
+  cell a i j = Some v ->
+  exists y x, sel_coord ds nm i j = Some (y, x, v) /\ source_cell close ce cn i j y x.
+Proof.
+  intros H Hnd N0 N1 Hnm Ha Hv.
+  destruct (make_structure _ _ _ _ _ _ _ _ H) as (e & n & Hh & Hd & LX & LD & F & _ & _ & ->).
+  assert (Ra: rect (length n) (length e) a = true).
+  { rewrite forallb_forall in F. apply F. apply in_or_app. left. eapply nth_error_In. exact Ha. }
+  destruct (horizontal_cells _ _ _ _ _ _ _ _ _ Hh Ra Hv) as (y & x & Hy & Hx & Hsrc).
+  exists y, x. split; [|exact Hsrc].
+  unfold sel_coord. cbn [ds_vars ds_coords].
+  rewrite assoc_skip by exact N1. rewrite assoc_skip by exact N0.
+  rewrite (map_combine_snd (fun a => Aux (mk_var dims a))).
+  rewrite (assoc_combine (fun a => Aux (mk_var dims a)) _ _ k _ _ Hnd Hnm Ha). cbn [v_dims v_rows].
+  rewrite assoc_skip by exact Hd. rewrite assoc_hit, assoc_hit.
+  rewrite Hy, Hx, Hv. reflexivity.
+Qed.
+
+End Make.
+
 End Proofs.
